@@ -503,7 +503,12 @@ def _functions(repo, rep):
                           "its handler records (token entry, file name, "
                           "exception) and re-raises", construct="handler:" +
                           name, where=L.where(f))
-    # transfers of control
+    transfers(repo, rep)
+
+
+def transfers(repo, rep, rule="R12.1"):
+    """the caller's token is cleared before control passes to another
+    emitted function (inline macro, slot filler)"""
     for name, callpat in (
             ("visit_UseInternalMacro",
              "_F(__stream, econtext.copy(), rcontext, __i18n_domain, "
@@ -519,7 +524,7 @@ def _functions(repo, rep):
                   if i < call]
         same = bool(resets) and L.cond_signature(lin.conds(resets[-1])) <= \
             L.cond_signature(lin.conds(call)) if call >= 0 else False
-        rep.check(call >= 0 and same, "R12.1", f.qualname,
+        rep.check(call >= 0 and same, rule, f.qualname,
                   "the caller's token is cleared before control passes to "
                   "another emitted function (which reports its own "
                   "position; a stale token would add an unrelated call "
